@@ -78,6 +78,121 @@ func registerIntrinsics(p *Program) {
 		}
 		panic("math.Modf: bad arg")
 	})
+	// truncInt returns trunc(x) as an Int term (x finite with a mantissa decomposition).
+	truncInt := func(m *Machine, x *SymFloat) *smt.Term {
+		c := m.Ctx
+		if x.Cls != nil && m.floatClass(x) != 0 {
+			unsupported("rounding of a non-finite float")
+		}
+		if x.M == nil || x.Esel == nil {
+			unsupported("rounding of an opaque float")
+		}
+		var t *smt.Term
+		for i := len(x.Exps) - 1; i >= 0; i-- {
+			e := x.Exps[i]
+			var ci *smt.Term
+			switch {
+			case e >= 0:
+				ci = c.Mul(c.BigInt(new(big.Int).Lsh(big.NewInt(1), uint(e))), x.M)
+			case -e >= 64:
+				ci = c.Int(0)
+			default:
+				d := c.BigInt(new(big.Int).Lsh(big.NewInt(1), uint(-e)))
+				ci = c.Ite(c.Le(c.Int(0), x.M), c.IDiv(x.M, d), c.Neg(c.IDiv(c.Neg(x.M), d)))
+			}
+			if t == nil {
+				t = ci
+			} else {
+				t = c.Ite(c.Eq(x.Esel, c.Int(int64(i))), ci, t)
+			}
+		}
+		return m.simp(t)
+	}
+	intFloat := func(m *Machine, t *smt.Term) *SymFloat {
+		c := m.Ctx
+		return &SymFloat{R: c.ToReal(t), M: t, Esel: c.Int(0), Exps: []int{0}, IsInt: c.True}
+	}
+	round := func(mode string) func(m *Machine, fr *frame, args []Value) Value {
+		return func(m *Machine, fr *frame, args []Value) Value {
+			switch x := args[0].(type) {
+			case float64:
+				switch mode {
+				case "trunc":
+					return math.Trunc(x)
+				case "floor":
+					return math.Floor(x)
+				}
+				return math.Ceil(x)
+			case *SymFloat:
+				c := m.Ctx
+				t := truncInt(m, x)
+				isInt := x.IsInt
+				if isInt == nil {
+					isInt = c.Eq(c.ToReal(t), x.R)
+				}
+				switch mode {
+				case "floor":
+					t = c.Ite(c.And(c.Lt(x.R, c.RatInt(0)), c.Not(isInt)), c.Sub(t, c.Int(1)), t)
+				case "ceil":
+					t = c.Ite(c.And(c.Lt(c.RatInt(0), x.R), c.Not(isInt)), c.Add(t, c.Int(1)), t)
+				}
+				return intFloat(m, m.simp(t))
+			}
+			panic("math rounding: bad arg")
+		}
+	}
+	model("math.Trunc", round("trunc"))
+	model("math.Floor", round("floor"))
+	model("math.Ceil", round("ceil"))
+	model("math.Abs", func(m *Machine, fr *frame, args []Value) Value {
+		switch x := args[0].(type) {
+		case float64:
+			return math.Abs(x)
+		case *SymFloat:
+			c := m.Ctx
+			if x.Cls != nil {
+				switch m.floatClass(x) {
+				case 1, 2:
+					return math.Inf(1)
+				case 3:
+					return math.NaN()
+				}
+			}
+			if x.R == nil {
+				unsupported("math.Abs of an opaque float")
+			}
+			out := &SymFloat{R: c.Ite(c.Lt(x.R, c.RatInt(0)), c.Neg(x.R), x.R), Esel: x.Esel, Exps: x.Exps, IsInt: x.IsInt}
+			if x.M != nil {
+				out.M = c.Ite(c.Lt(x.M, c.Int(0)), c.Neg(x.M), x.M)
+			}
+			return out
+		}
+		panic("math.Abs: bad arg")
+	})
+	model("math.Signbit", func(m *Machine, fr *frame, args []Value) Value {
+		switch x := args[0].(type) {
+		case float64:
+			return math.Signbit(x)
+		case *SymFloat:
+			c := m.Ctx
+			if x.Cls != nil {
+				switch m.floatClass(x) {
+				case 1:
+					return false
+				case 2:
+					return true
+				case 3:
+					unsupported("Signbit of NaN")
+				}
+			}
+			nz := x.NegZero
+			if nz == nil {
+				nz = c.False
+			}
+			return unTerm(m.simp(c.Or(c.Lt(x.R, c.RatInt(0)), c.And(c.Eq(x.R, c.RatInt(0)), nz))))
+		}
+		panic("math.Signbit: bad arg")
+	})
 	model("math.Float64bits", func(m *Machine, fr *frame, args []Value) Value {
 		if x, ok := args[0].(float64); ok {
 			return math.Float64bits(x)
